@@ -80,11 +80,47 @@ func f(x byte) byte { return g(x) + 1 }`, "g,f", true, "((g x) + 1#8)"},
 		"if !(!(BitVec.slt i (BitVec.ofNat 64 xs.length)) || (Go.inRangeS i xs.length)) then Go.Flow.panic else"},
 	{"in-range index stays plain", `func f(xs []byte) byte { var r byte; for i := range xs { r ^= xs[i] }; return r }`, "f", true, "def f (xs : List (BitVec 8)) : BitVec 8 :="},
 	{"checked write to a local", `func f(n int) []byte { r := make([]byte, 4); r[n] = 1; return r }`, "f", true, "(r.set n.toNat 1#8)"},
-	{"index by byte", `func f(xs []byte, i byte) byte { return xs[i] }`, "f", false, "only int, uint and constants"},
+	{"index by byte", `func f(xs []byte, i byte) byte { return xs[i] }`, "f", true, "if !(Go.inRangeU8 i xs.length) then Go.Flow.panic else"},
+	{"index by bool", `func f(xs []byte, i string) byte { return xs[len(i)] + xs[0] }`, "f", true, "Go.inRangeS"},
 	{"index of call", `func g(xs []byte) []byte { return append([]byte{1}, xs...) }
 func f(xs []byte) byte { return g(xs)[0] }`, "g,f", false, "only variable[index]"},
 	{"call of a function that may panic", `func g(xs []byte) byte { return xs[0] }
-func f(xs []byte) byte { return g(xs) }`, "g,f", false, "may panic or writes into a parameter"},
+func f(xs []byte) byte { return g(xs) }`, "g,f", true, "Go.Flow.bind (Go.call (g xs)) (fun (st_1 : BitVec 8) =>\n  Go.Flow.done st_1)"},
+	// stage 5: calls that may panic or write into an argument, slice expressions as arguments, tables, panic, Builder
+	{"call statement with an output window", `func g(dst []int8, v int8) { dst[0] = v }
+func f(dst []int8, v int8) { g(dst[1:], v) }`, "g,f", true,
+		"if !(decide (1 ≤ dst.length)) then Go.Flow.panic else\n  Go.Flow.bind (Go.call (g (dst.drop 1) v)) (fun (st_1 : List (BitVec 8)) =>\n  let dst : List (BitVec 8) := (dst.take 1 ++ st_1)"},
+	{"call statement, whole output buffer", `func g(dst []int8, v int8) { dst[0] = v }
+func f(v int8) []int8 { r := make([]int8, 2); g(r, v); return r }`, "g,f", true, "Go.Flow.bind (Go.call (g r v)) (fun (st_1 : List (BitVec 8)) =>\n  let r : List (BitVec 8) := st_1"},
+	{"call result assigned", `func g(xs []byte) (byte, bool) { return xs[0], true }
+func f(xs []byte) byte { a, ok := g(xs[2:]); if !ok { return 0 }; return a }`, "g,f", true,
+		"Go.Flow.bind (Go.call (g (xs.drop 2))) (fun (st_1 : BitVec 8 × Bool) =>\n  let a : BitVec 8 := st_1.1\n  let ok : Bool := st_1.2"},
+	{"call into a parameter that is not an output buffer of the caller", `func g(dst []int8) { dst[0] = 1 }
+func f(dst []int8, src []int8) int8 { g(src); dst[0] = 2; return 0 }`, "g,f!disjoint", true, "let src : List (BitVec 8) := st_1"},
+	{"call writing into a shared local", `func g(dst []int8) { dst[0] = 1 }
+func f(n int) int { r := make([]int8, 2); r = append(r, 1); g(r); return len(r) }`, "g,f", false, "also assigned by index"},
+	{"call reading what it writes", `func g(dst []int8, src []int8) { dst[0] = src[0] }
+func f() int8 { r := make([]int8, 2); g(r, r[1:]); return r[0] }`, "g!disjoint,f", false, "reads `r`, which g writes into"},
+	{"nested call under &&", `func g(xs []byte) bool { return xs[0] == 1 }
+func f(xs []byte, a bool) bool { return a && g(xs) }`, "g,f", false, "evaluated conditionally"},
+	{"nested calls", `func g(xs []byte) byte { return xs[0] }
+func f(xs []byte) byte { return g(xs) + g(xs[1:]) }`, "g,f", true, "Go.Flow.bind (Go.call (g (xs.drop 1))) (fun (st_2 : BitVec 8) =>\n  Go.Flow.done (st_1 + st_2)))"},
+	{"slice expression with two bounds as argument", `func g(xs []byte) int { return len(xs) }
+func f(xs []byte, a, b int) int { return g(xs[a:b]) }`, "g,f", true, "if !(Go.sliceOK a b xs.length) then Go.Flow.panic else"},
+	{"two-dimensional table", `var tab = [2][3]int8{{1, 2, 3}, {4, 5, -6}}
+func f(i int8) int8 { return tab[i][2] }`, "f", true, "((var_tab.getD i.toNat []).getD 2 0#8)"},
+	{"two-dimensional table, modified", `var tab = [2][3]int8{{1, 2, 3}, {4, 5, -6}}
+func g() { tab[0][0] = 1 }
+func f(i int8) int8 { return tab[i][2] }`, "f", false, "may be modified or aliased"},
+	{"panic", `func f(a int) int { if a < 0 { panic("neg") }; return a }`, "f", true, "if (BitVec.slt a 0#64) then\n    Go.Flow.panic\n  else"},
+	{"strings.Builder", `import "strings"
+func f(xs []byte) string { var b strings.Builder; b.Grow(len(xs)); for _, x := range xs { b.WriteByte(x + 1) }; return b.String() }`, "f", true,
+		"List.foldl (fun (b : List (BitVec 8)) (x : BitVec 8) =>\n      (b ++ [(x + 1#8)])) b xs"},
+	{"strings.Builder, other method", `import "strings"
+func f(xs string) string { var b strings.Builder; b.WriteString(xs); return b.String() }`, "f", false, "is not supported (only WriteByte, Grow and String)"},
+	{"three-clause for, <= len(x)-c", `func f(xs []byte) int { s := 0; for j := 0; j <= len(xs)-6; j += 6 { s += j }; return s }`, "f", true,
+		"(Go.forUp true true 0#64 ((BitVec.ofNat 64 xs.length) - 6#64) 6)"},
+	{"three-clause for, <= len(x)-c too small", `func f(xs []byte) int { s := 0; for j := 0; j <= len(xs)-5; j += 6 { s += j }; return s }`, "f", false, "could wrap around"},
 	{"negative shift count in a function that may panic", `func f(xs []byte, n int) byte { return xs[0] << n }`, "f", true, "if !(Go.nonneg n) then Go.Flow.panic else"},
 	// reslicing and condition loops
 	{"reslice", `func f(xs []byte, n int) int { xs = xs[n:]; return len(xs) }`, "f", true, "if !(Go.sliceFromS n xs.length) then Go.Flow.panic else\n  let xs : List (BitVec 8) := (xs.drop n.toNat)"},
@@ -110,7 +146,9 @@ func f(xs []byte) byte { return g(xs) }`, "g,f", false, "may panic or writes int
 	{"array pointer", `func f(l *[4]uint, i uint) uint { return l[i] }`, "f", true, "if !(Go.inRangeU i 4) then Go.Flow.panic else\n  Go.Flow.done (l.getD i.toNat 0#64)"},
 	{"array pointer written", `func f(l *[4]uint) uint { l[0] = 1; return 0 }`, "f", false, "writing through an array pointer"},
 	{"array pointer escaping", `func g(xs []uint) uint { return 0 }
-func f(l *[4]uint) uint { return g(l[:]) }`, "g,f", false, "unsupported expression"},
+func f(l *[4]uint) uint { return g(l[:]) }`, "g,f", true, "(g l)"},
+	{"array pointer escaping into a writer", `func g(xs []uint) { xs[0] = 1 }
+func f(l *[4]uint) uint { g(l[:]); return 0 }`, "g,f", false, "writing through an array pointer"},
 	{"array pointer copied", `func f(l *[4]uint) uint { m := l; return m[0] }`, "f", false, "assignment to the array pointer"},
 	{"array pointer passed on", `func g(l *[4]uint) uint { return 0 }
 func f(l *[4]uint) uint { return g(l) }`, "g,f", false, "may only be indexed"},
@@ -147,7 +185,8 @@ func f() int { s := 0; for i := range tab { s += tab[i] }; return s }`, "f", fal
 	{"division by a variable", `func f(a, b int) int { return a / b }`, "f", false, "non-constant or zero divisor"},
 	{"remainder by zero", `func f(a uint) uint { const z = 0; return a % (z + 0) }`, "f", false, "invalid operation"},
 	{"int32", `func f(a int32) int32 { return a }`, "f", false, "outside the translated subset"},
-	{"range over string", `func f(s string) int { n := 0; for range s { n++ }; return n }`, "f", false, "range over string"},
+	{"range over string", `func f(s string) int { n := 0; for range s { n++ }; return n }`, "f", true, "(n + 1#64)) n (Go.runeStarts s)"},
+	{"range over string by value", `func f(s string) int { n := 0; for _, c := range s { n += int(c) }; return n }`, "f", false, "range over string is not supported"},
 	{"range by value over assigned slice", `func f(x byte) int { r := []byte{x}; s := 0; for _, v := range r { r = append(r, v); s += int(v) }; return s }`, "f", false,
 		"over which it ranges by value"},
 	{"callee not translated", `func g(x byte) byte { return x }
@@ -250,6 +289,49 @@ func f(a int) (int, error) { return a, &E{errors.New("y"), a} }`, "f", false, "i
 	// output buffer with the element type of another parameter
 	{"output buffer that may overlap, assumed disjoint", `func f(dst []byte, src []byte) int { for i := range src { dst[i] = src[i] }; return 0 }`, "f!disjoint", true,
 		"ASSUMPTION (not checked here): the array of `dst` does not overlap the arrays of the other parameters"},
+	// stage 4: methods, fields, tuple assignment, swaps, prefix reslicing, copy
+	{"method with fields", `type T struct { a [4]uint; n int; unused []string }
+func (c *T) m(i int) uint { c.n = i; return c.a[i] }`, "T.m", true,
+		"def T_m (c_a : List (BitVec 64)) (c_n : BitVec 64) (i : BitVec 64) : Option (BitVec 64 × BitVec 64) :="},
+	{"method, checked field index", `type T struct { a [4]uint }
+func (c *T) m(i int) uint { return c.a[i] }`, "T.m", true, "if !(Go.inRangeS i 4) then Go.Flow.panic else"},
+	{"method, field written", `type T struct { a [4]uint }
+func (c *T) m(i uint) { c.a[i] |= 3 }`, "T.m", true, "let c_a : List (BitVec 64) := (c_a.set i.toNat ((c_a.getD i.toNat 0#64) ||| 3#64))\n  Go.Flow.done c_a"},
+	{"method, receiver escapes", `type T struct { a [4]uint }
+func g(c *T) uint { return 0 }
+func (c *T) m() uint { return g(c) }`, "T.m", false, "used only as c.f"},
+	{"method, method call on receiver", `type T struct { a [4]uint }
+func (c *T) g() uint { return 0 }
+func (c *T) m() uint { return c.g() }`, "T.m", false, "used only as c.f"},
+	{"method, value receiver", `type T struct { a [4]uint }
+func (c T) m() uint { return c.a[0] }`, "T.m", false, "must be `c *T`"},
+	{"method, whole array field assigned", `type T struct { a [4]uint }
+func (c *T) m() { var z [4]uint; c.a = z }`, "T.m", false, "array field a as a whole"},
+	{"void function without effect", `func f(a int) { a++ }`, "f", false, "without result and without effect"},
+	{"tuple assignment", `func f(a, b int) int { a, b = b, a+b; return a - b }`, "f", true,
+		"let st_1 : BitVec 64 := b\n  let st_2 : BitVec 64 := (a + b)\n  let a : BitVec 64 := st_1\n  let b : BitVec 64 := st_2"},
+	{"tuple definition", `func f(xs []byte) int { a, b := xs[0], xs[1]; return int(a) + int(b) }`, "f", true,
+		"if !(decide (1 < xs.length)) then Go.Flow.panic else\n  let st_2 : BitVec 8 := (xs.getD 1 0#8)"},
+	{"tuple assignment from a call", `func g(a uint) (uint, uint) { return a + 1, a + 2 }
+func f(a uint) uint { x, y := g(a); return x ^ y }`, "g,f", true, "let st_1 : BitVec 64 × BitVec 64 := (g a)\n  let x : BitVec 64 := st_1.1\n  let y : BitVec 64 := st_1.2"},
+	{"tuple assignment of slices", `func f(xs, ys []byte) int { a, b := xs, ys; return len(a) + len(b) }`, "f", false, "would alias"},
+	{"op-assignment to an element", `func f(n int) []byte { r := make([]byte, 4); r[n] += 2; return r }`, "f", true, "(r.set n.toNat ((r.getD n.toNat 0#8) + 2#8))"},
+	{"array pointer written, assumed disjoint", `func f(l *[4]uint) uint { l[0] = 1; return 0 }`, "f!disjoint", true, "def f (l : List (BitVec 64)) : Option (BitVec 64 × List (BitVec 64)) :="},
+	{"array pointers swapped", `func f(p, q *[2]uint) { p[0] = 1; p, q = q, p; p[1] = 2 }`, "f!disjoint", true,
+		"Go.Flow.done ((Go.byTag [p, q] 0), (Go.byTag [p, q] 1))"},
+	{"array pointers swapped, initial tags", `func f(p, q *[2]uint) { p[0] = 1; p, q = q, p; p[1] = 2 }`, "f!disjoint", true,
+		"let p : (Nat × List (BitVec 64)) := (0, p)\n  let q : (Nat × List (BitVec 64)) := (1, q)"},
+	{"array pointers swapped, not assumed disjoint", `func f(p, q *[2]uint) { p[0] = 1; p, q = q, p; p[1] = 2 }`, "f", false, "only supported under the explicit assumption"},
+	{"array pointer assigned", `func f(p, q *[2]uint) { p = q; p[1] = 2 }`, "f!disjoint", false, "assignment to the array pointer"},
+	{"array pointers, not a permutation", `func f(p, q *[2]uint) { p, q = q, q; p[1] = 2 }`, "f!disjoint", false, "may only be assigned by a swap"},
+	{"prefix reslice", `func f(xs []byte) int { xs = xs[:3]; return len(xs) }`, "f", true, "if !(decide (3 ≤ xs.length)) then Go.Flow.panic else\n  let xs : List (BitVec 8) := (xs.take 3)"},
+	{"prefix reslice of an output buffer", `func f(dst []int8) { dst = dst[:2]; dst[1] = 5 }`, "f", true, "Go.Flow.done (dst ++ dst_rest)"},
+	{"prefix reslice in a loop", `func f(xs []byte, n int) int { for i := 0; i < n; i++ { xs = xs[:3] }; return len(xs) }`, "f", false, "as a statement of the function body itself"},
+	{"copy", `func f(dst []uint, a *[3]uint) { copy(dst, a[:]) }`, "f!disjoint", true, ": List (BitVec 64) :=\n  (Go.copy dst a)"},
+	{"copy into a local", `func f(xs []byte) []byte { r := make([]byte, 2); copy(r, xs); return r }`, "f", true, "(Go.copy r xs)"},
+	{"copy into a parameter that may overlap", `func f(dst, src []byte) { copy(dst, src) }`, "f", false, "may overlap"},
+	{"local array", `func f(i int) byte { var a [4]byte; a[i] = 7; return a[0] }`, "f", true, "let a : List (BitVec 8) := (List.replicate 4 0#8)"},
+	{"array parameter", `func f(l [4]uint) uint { return l[0] }`, "f", false, "outside the translated subset"},
 }
 
 func TestLoopTranslator(t *testing.T) {
